@@ -11,6 +11,27 @@ and name patching, as the test-suite itself does with mock.patch.
 """
 import sys, os, io, json, threading, queue as _queue, contextlib
 
+
+class FalsyArgs(list):
+    """Scheduling arguments that are falsy but not None (like 0, '' or []): an empty list that remembers its id."""
+    def __init__(self, n):
+        super().__init__()
+        self.n = n
+
+
+def mkargs(a):
+    """args id -> the Python object a screen is scheduled with: 0 = None, odd = the int, even = a falsy (empty) object"""
+    if not a:
+        return None
+    return a if a % 2 else FalsyArgs(a)
+
+
+def aid(args):
+    if args is None:
+        return 0
+    return args.n if isinstance(args, FalsyArgs) else args
+
+
 sys.dont_write_bytecode = True
 REAL_STDOUT = sys.stdout
 REPO = os.environ.get("VERIF_REPO", "/repo")
@@ -368,7 +389,7 @@ def run_session(case):
             self.sid = st["nsd"]; st["nsd"] += 1
 
     def sd_fields(d):
-        return [d.sid, scr_id.get(id(d.ui_screen), 999), d.args or 0, 1 if d.execute_new_loop else 0]
+        return [d.sid, scr_id.get(id(d.ui_screen), 999), aid(d.args), 1 if d.execute_new_loop else 0]
 
     class Stack(ScreenStack):
         def append(self, screen):
@@ -391,19 +412,19 @@ def run_session(case):
             return SS.ScreenScheduler._spacer()
 
         def schedule_screen(self, ui_screen, args=None):
-            U(17, [0, scr_id[id(ui_screen)], args or 0]); super().schedule_screen(ui_screen, args)
+            U(17, [0, scr_id[id(ui_screen)], aid(args)]); super().schedule_screen(ui_screen, args)
 
         def push_screen(self, ui_screen, args=None):
-            U(17, [1, scr_id[id(ui_screen)], args or 0]); super().push_screen(ui_screen, args)
+            U(17, [1, scr_id[id(ui_screen)], aid(args)]); super().push_screen(ui_screen, args)
 
         def push_screen_modal(self, ui_screen, args=None):
-            U(17, [2, scr_id[id(ui_screen)], args or 0])
+            U(17, [2, scr_id[id(ui_screen)], aid(args)])
             nsd = st["nsd"]
             super().push_screen_modal(ui_screen, args)
             U(10, [nsd, scr_id[id(ui_screen)]])
 
         def replace_screen(self, ui_screen, args=None):
-            U(17, [3, scr_id[id(ui_screen)], args or 0]); super().replace_screen(ui_screen, args)
+            U(17, [3, scr_id[id(ui_screen)], aid(args)]); super().replace_screen(ui_screen, args)
 
         def close_screen(self, closed_from=None):
             U(17, [4, (scr_id.get(id(closed_from), 998) + 1) if closed_from is not None else 0, 0])
@@ -441,14 +462,14 @@ def run_session(case):
             su = self.spec[0]
             n = count(self.i, "setup")
             ok = True if not su else (su[n] if n < len(su) else su[-1])
-            U(1, [top_sd().sid, self.i, args or 0, 1 if ok else 0])
+            U(1, [top_sd().sid, self.i, aid(args), 1 if ok else 0])
             if not ok:
                 return False
             return super().setup(args)
 
         def refresh(self, args=None):
             n = count(self.i, "refresh")
-            U(2, [top_sd().sid, self.i, args or 0])
+            U(2, [top_sd().sid, self.i, aid(args)])
             super().refresh(args)
             pages = self.spec[10]
             for k in range(pages * (HEIGHT - 2) + 1 if pages else 1):
@@ -470,12 +491,20 @@ def run_session(case):
         def prompt(self, args=None):
             if self.spec[6]:
                 return None
-            U(18, [self.i, args or 0, st["nih"]])
+            U(18, [self.i, aid(args), st["nih"]])
+            if self.i % 3 == 2:
+                # every third screen has an EMPTY prompt (no message, no options): it renders to no line at all; the request
+                # behaves like any other (the model does not look at the prompt's text)
+                from simpleline.render.prompt import Prompt
+                p = Prompt("")
+                for k in list(p.options):
+                    p.remove_option(k)
+                return p
             return super().prompt(args)
 
         def input(self, args, key):
             n = count(self.i, "input")
-            U(7, [self.i, args or 0], key)
+            U(7, [self.i, aid(args)], key)
             for k, cmds, ret in self.spec[4]:
                 if "".join(chr(c) for c in k) == key:
                     do_cmds(self, cmds, n); return conv_ret(ret, key)
@@ -494,11 +523,11 @@ def run_session(case):
                 return "A%d" % self.i
 
             def setup(self, args):
-                U(1, [top_sd().sid, self.i, args or 0, 1])
+                U(1, [top_sd().sid, self.i, aid(args), 1])
                 return super().setup(args)
 
             def refresh(self, args=None):
-                U(2, [top_sd().sid, self.i, args or 0])
+                U(2, [top_sd().sid, self.i, aid(args)])
                 super().refresh(args)
 
             def show_all(self):
@@ -516,7 +545,7 @@ def run_session(case):
                 p = super().prompt(args)
                 self.got()
                 if p is not None:
-                    U(18, [self.i, args or 0, n])
+                    U(18, [self.i, aid(args), n])
                 return p
 
             def got(self):
@@ -528,7 +557,7 @@ def run_session(case):
                 super().close()
 
             def input(self, args, key):
-                U(7, [self.i, args or 0], key)
+                U(7, [self.i, aid(args)], key)
                 return super().input(args, key)
         return Lg
 
@@ -564,13 +593,13 @@ def run_session(case):
         for c in cmds:
             op = c[0]
             if op == 0:
-                sch.push_screen(screens[c[1]], c[2] or None)
+                sch.push_screen(screens[c[1]], mkargs(c[2]))
             elif op == 1:
-                sch.push_screen_modal(screens[c[1]], c[2] or None)
+                sch.push_screen_modal(screens[c[1]], mkargs(c[2]))
             elif op == 2:
-                sch.replace_screen(screens[c[1]], c[2] or None)
+                sch.replace_screen(screens[c[1]], mkargs(c[2]))
             elif op == 3:
-                sch.schedule_screen(screens[c[1]], c[2] or None)
+                sch.schedule_screen(screens[c[1]], mkargs(c[2]))
             elif op == 4:
                 screens[me].close()
             elif op == 5:
@@ -643,9 +672,18 @@ def run_session(case):
         U(19, [scr_id[id(self._ui_screen)], {0: 0, 5: 1, 6: 2, 7: 3, -1: 4}[r.value]])
         return r
 
+    intended_source = {}
+
     def ih_init(self, callback=None, source=None):
         ih_id[id(self)] = st["nih"]; st["nih"] += 1; keep.append(self)
+        intended_source.setdefault(id(self), source)
         orig_ih_init(self, callback, source)
+
+    orig_pih_init = IH.PasswordInputHandler.__init__
+
+    def pih_init(self, callback=None, source=None):
+        intended_source[id(self)] = source            # what the creator of the (hidden-input) handler named as requester
+        orig_pih_init(self, callback, source)
 
     def ih_recv(self, signal, args):
         if signal.input_handler_source is self:
@@ -687,9 +725,18 @@ def run_session(case):
     def start_input(self, input_thread_object, concurrent_check=True):
         try:
             return orig_start_input(self, input_thread_object, concurrent_check)
-        except KeyError:
+        except KeyError as e:
             ids = [ih_id[id(t.source)] for t in self._input_stack]
             ids.append(ih_id[id(input_thread_object.source)])     # the refused request was popped before the raise
+            # "refused with an error that names every requester involved": the message must name, for every request, the
+            # handler and the requester its creator gave (the screen), "Unknown" only for a handler created without one
+            msg = str(e.args[0]) if e.args else ""
+            for t in list(self._input_stack) + [input_thread_object]:
+                who = intended_source.get(id(t.source))
+                line = "Input handler: {} Input requester: {}".format(t.source, who if who is not None else "Unknown")
+                if line not in msg:
+                    ids.append(9999)                               # not named: the acceptor will reject this refusal
+                    break
             U(11, ids)
             raise
 
@@ -705,7 +752,8 @@ def run_session(case):
         U(13, [scr, n])
         return v
 
-    patches = [(IH.InputHandler, "__init__", ih_init), (IH.InputHandler, "_input_received_handler", ih_recv),
+    patches = [(IH.InputHandler, "__init__", ih_init), (IH.PasswordInputHandler, "__init__", pih_init),
+               (IH.InputHandler, "_input_received_handler", ih_recv),
                (IH.InputHandlerRequest, "_get_input", staticmethod(fake_get_input)),
                (IT.InputRequest, "start_thread", start_thread),
                (IT.InputThreadManager, "start_input_thread", start_input),
